@@ -57,12 +57,14 @@ def case_gen(draw):
     # a FRESH NaN per item equals nothing (itself included): one group per item; a shared NaN object is not generated (the
     # implementation's dict would find it by identity, which 'equal by ==' neither demands nor forbids)
     pool = draw(st.lists(st.one_of(keys.SPEC, keys.SPEC, keys.SPEC, keys.SPEC, st.just(['nan', 1])), min_size=1, max_size=8))
+    pool = keys.compatible(pool)
     n = draw(st.sampled_from([0, 1, 3, 6]))
     items = draw(st.lists(st.tuples(st.integers(0, len(pool) - 1), st.integers(-8, 8)).map(list), min_size=n, max_size=14))
     which = draw(st.sampled_from(['to_list', 'identity', 'p', 'p']))
     p = draw(gen.chain('int', INNER, 1, min_len=1)) if which == 'p' else ([['to_list']] if which == 'to_list' else [])
     parent = draw(st.one_of(st.none(), st.none(), st.sampled_from([['group_by', 2], ['roll', 3, 2], ['roll', 2, 2], ['roll', 4, 1], ['split', 'div', 4], ['split', 'mod', 2], ['gb+roll', 2, 3, 1], ['gb+roll', 3, 2, 1], ['gb+roll', 2, 4, 2]])))
-    return {'pool': pool, 'items': items, 'p': p, 'parent': parent, 'buffer': draw(st.integers(0, 3)) == 0, 'transient': draw(st.integers(0, 2)) == 0}
+    return {'pool': pool, 'items': items, 'p': p, 'parent': parent, 'buffer': draw(st.integers(0, 3)) == 0, 'transient': draw(st.integers(0, 2)) == 0,
+            'kf_form': draw(st.sampled_from(['lambda', 'lambda', 'default_arg', 'partial', 'obj']))}
 
 
 def check(case):
@@ -76,6 +78,18 @@ def check(case):
         src_items = objs
         keyf = lambda i: i[0]
     norm = (lambda i: (keys.mk(pool[i[0]]), i[1])) if case.get('transient') else (lambda i: (i[0], i[1]))
+    # the key mapper is a one-argument callable in any form: a lambda with a defaulted extra parameter, a partial, an object
+    base_keyf, form = keyf, case.get('kf_form', 'lambda')
+    if form == 'default_arg':
+        keyf = lambda i, f=base_keyf: f(i)
+    elif form == 'partial':
+        import functools
+        keyf = functools.partial(lambda f, i: f(i), base_keyf)
+    elif form == 'obj':
+        class _KF(object):
+            def __call__(self, i, _f=base_keyf):
+                return _f(i)
+        keyf = _KF()
     ctx = {'pool': pool, 'items': case['items'], 'pipeline': p, 'parent': parent}
 
     # ---- reference
